@@ -110,9 +110,41 @@ def plan_tx(tier, seed, props):
 
 
 class Stage:
-    def __init__(self, driver, module, planfn, props=None, bins=False, table="plain", yaml_every=8, extra=None):
+    def __init__(self, driver, module, planfn, props=None, bins=False, table="plain", yaml_every=8, extra=None, followup=None):
         self.driver, self.module, self.planfn = driver, module, planfn
         self.props, self.bins, self.table, self.yaml_every, self.extra = props, bins, table, yaml_every, extra or {}
+        self.followup = followup
+
+
+def table_path(name):
+    return name if name == "plain" else os.path.join(L.VERIF, "tables", name + ".json")
+
+
+def plan_jp(tier, seed, props):
+    q = tier == "quick"
+    items = [item("scalarr_4_3", NONE, 0.06 if q else 0.5, False, max=4),
+             item("nestarr_2", NONE, 0.06 if q else 0.5, False, max=4),
+             item("obj_2", NONE, 0.1 if q else 0.6, False, max=3),
+             item("deep", NONE, 0.04 if q else 0.4, False, max=4),
+             item("objptr", NONE, 0.015 if q else 0.15, False, max=3),
+             item("ptrdeep", NONE, 0.1 if q else 0.8, False, max=4),
+             item("keyed_2", NONE, 0.3 if q else 1.0, False, max=3),
+             # set-mode diffs: paths that must be refused
+             item("scalarr_4_3", SET, 0.01 if q else 0.05, False, max=1), item("keyed_2", KEYS, 0.1 if q else 0.5, False, max=1),
+             item("nestarr_2", MSET, 0.01 if q else 0.05, False, max=1)]
+    return items
+
+
+def followup_vary(sc, jdv, st, tr, tag, seed):
+    """pass 2 of C10: TLC applies the variation operators to the real patches of pass 1"""
+    out = sc.sub("vary-" + tag)
+    r = L.run_tlc(sc, "GenVary", "INIT GenInit\nNEXT GenNext\n", env={"JDV_TRACE": tr["dir"], "JDV_OUT": out},
+                  workers=1, timeout=1800, tag="genvary-" + tag)
+    if not L.tlc_ok(r):
+        raise Infra("variation generator failed:\n" + L.tlc_error_text(r))
+    plan = dict(driver="jpv", seed=seed, table=table_path(st.table), yaml_every=0, items=[], bins={},
+                extra={"vary": os.path.join(out, "vary.ndjson")})
+    return [(plan, "TraceJP", tag + "v")]
 
 
 DESIGN_CFG = {}     # name -> (module, cfg text)   filled in below
@@ -124,6 +156,12 @@ CHECKS = {
     "C02": dict(stages=[Stage("tx", "TraceText", plan_tx)], design=["MCText"],
                 rule="session = one diff value (returned by Diff, or built from DiffElement fields: every well-formed single hunk, "
                      "seeded pairs and triples): Render, ReadDiffString, re-Render, colour, Patch of both on targets"),
+    "C09": dict(stages=[Stage("jp", "TraceJP", plan_jp, table="pointer")], design=["MCJsonPatch"],
+                rule="session = one list-mode (a,b) over keys hostile to JSON Pointer: RenderPatch text parsed independently and "
+                     "evaluated by the RFC 6902 machine on a and on every target the native diff applies to"),
+    "C10": dict(stages=[Stage("jp", "TraceJP", plan_jp, table="pointer", followup=followup_vary)], design=["MCJsonPatch"],
+                rule="session = one patch document (jd's own output, or a variation generated by the specification: shifted indices, "
+                     "dropped hunks, dropped context tests, changed test/remove values, '-' appends) read by ReadPatchString and applied to targets"),
     "C03": dict(stages=[Stage("pt", "TraceDP", plan_pt)], design=["MCPatch"],
                 rule="session = one list-mode diff with its sub-sequences applied to a, b and perturbed targets; "
                      "non-trivial = at least one target rejected and one accepted"),
@@ -193,16 +231,22 @@ def run_check(prop, tier, seed, keep=False):
         tstates = ttrans = 0
         samples, stage_info = [], []
         traces = {}
+        work = []
         for i, st in enumerate(cfg["stages"]):
             if st.bins and bins is None:
                 bins = L.build_binaries(sc)
             props_judged = st.props or [prop]
-            plan = dict(driver=st.driver, seed=seed, table=st.table, yaml_every=st.yaml_every,
+            plan = dict(driver=st.driver, seed=seed, table=table_path(st.table), yaml_every=st.yaml_every,
                         items=st.planfn(tier, seed, props_judged), bins=bins or {}, extra=st.extra)
-            tag = "%s-%d" % (st.driver, i)
+            work.append((plan, st.module, "%s-%d" % (st.driver, i), st, props_judged))
+        while work:
+            plan, module, tag, st, props_judged = work.pop(0)
             tr = L.run_driver(sc, jdv, plan, tag)
-            v = L.judge(sc, st.module, props_judged, tr, tag, constants=known_constants())
+            v = L.judge(sc, module, props_judged, tr, tag, constants=known_constants())
             traces[tag] = tr
+            if st is not None and st.followup:
+                for (p2, m2, t2) in st.followup(sc, jdv, st, tr, tag, seed):
+                    work.append((p2, m2, t2, None, props_judged))
             for f in v["fail"]:
                 fails.append(f + (tag,))
             for f in v["known"]:
@@ -213,7 +257,7 @@ def run_check(prop, tier, seed, keep=False):
             tstates += v["tlc"]["distinct"]
             ttrans += v["tlc"]["generated"]
             samples += L.first_sessions(tr["dir"], 2)
-            stage_info.append(dict(driver=st.driver, judge=st.module, sessions=tr["sessions"], records=tr["records"],
+            stage_info.append(dict(driver=plan["driver"], judge=module, sessions=tr["sessions"], records=tr["records"],
                                    driver_wall=round(tr["wall"], 1), judge_wall=round(v["tlc"]["wall"], 1),
                                    stats=v["stat"]))
         fails = [f for f in fails if f[1] == prop]
